@@ -96,6 +96,9 @@ unique_ptr<DiscreteDistributionInterface> BppODiscreteDistributionFormat::readDi
     while (strtok2.hasMoreToken())
       probas.push_back(TextTools::toDouble(strtok2.nextToken()));
 
+    if (values.empty())
+      throw Exception("Simple distribution: at least one value is needed in argument 'values'");
+
     std::map<size_t, std::vector<double>> ranges;
 
     if (args.find("ranges") != args.end())
